@@ -158,6 +158,27 @@ pub fn generate(rng: &mut Rng, thorough: bool, out: &mut Out, for_c14: bool) {
             out.case(q, r);
         }
     }
+    // short rods whose lead-in and lead-out tapers together are longer than the thread (lengths just
+    // above two pitches, leads up to a full turn each): every flag combination
+    {
+        let mut k = 0usize;
+        for &ratio in &[2.05f64, 2.2, 2.5, 2.69, 3.0] {
+            for &(li, lo) in &[(360.0f64, 360.0f64), (350.0, 360.0), (360.0, 180.0), (180.0, 360.0), (0.0, 360.0), (360.0, 0.0)] {
+                k += 1;
+                if !thorough && k % 2 == 0 {
+                    continue;
+                }
+                let m = [8i64, 3, 20, 12][k % 4];
+                let pitch = verif_hooks::m_table_lookup(m as i32)[0];
+                let seg = [16u64, 8, 12][k % 3];
+                let left = k % 2 == 1;
+                let (q, r) = run_part("rod", m, pitch * ratio, 0.0, seg, li, lo, false, left);
+                out.case(q, r);
+                let (q, r) = run_part("bolt", m, pitch * ratio, 2.0, seg, li, 0.0, k % 3 == 0, left);
+                out.case(q, r);
+            }
+        }
+    }
     if !for_c14 {
         // long, fine threads: step counts past 2^13 (quick) and 2^16 (both tiers: one case), many segments
         let mut big: Vec<(f64, f64, f64, u64)> = vec![(2.0, 0.4, 100.0, 360), (3.0, 0.5, 20.0, 256)];
